@@ -550,7 +550,7 @@ class Spec:
             "one save and two client switches; distinct = distinct hash of the ordered (client, operation) sequence among those")
 
     def runs(self, tier):
-        return 8000 if tier == "quick" else 300000
+        return 12000 if tier == "quick" else 300000
 
     def wall_budget(self, tier):
         return 150 if tier == "quick" else 3000
